@@ -145,7 +145,7 @@ def _decide(h, meta, cfg, r):
         main = [d for d, t in vc.disj if t == 'UNREACH']
         vac = [d for d, t in vc.disj if t == 'CALL']
     else:
-        main = [d for d, t in vc.disj if t == 'prop']
+        main = [d for d, t in vc.disj if t in ('prop', 'EXACT')]
         vac = [d for d, t in vc.disj if t == 'END']
     r['disjuncts'] = dict(total=len(tags), main=len(main), marker=len(vac))
     if not vac:
@@ -157,6 +157,7 @@ def _decide(h, meta, cfg, r):
         r['detail'] = 'vacuity marker not present in the VC (harness end / call site statically unreachable)'
         return
     modes = [h['mode']]
+    cap = max(cfg['solver_cap'], h.get('cap') or 0)
     if h['mode'] == 'U':
         modes += ['B', 'R']
     ins, getq = engine.model_queries(vc, h['mode'])
@@ -192,7 +193,7 @@ def _decide(h, meta, cfg, r):
             v = None
             for pl in pins + [[]]:
                 q = lines + pl + [vq, '(check-sat)']
-                v, o, s = engine.run_solver(q, cfg['solver_cap'] if not pl else min(cfg['solver_cap'], 20), cfg['seed'])
+                v, o, s = engine.run_solver(q, cap if not pl else min(cap, 20), cfg['seed'], any_solver=True)
                 r['queries'] += 1
                 r['solver_s'] += s
                 if v == 'sat':
@@ -204,6 +205,9 @@ def _decide(h, meta, cfg, r):
                 r['verdict'] = 'error' if v == 'unsat' else 'undecided'
                 r['detail'] = f'vacuity twin is {v}: the harness end (or call site) is not reachable / not decided' + (o[:300] if v == 'error' else '')
                 return
+        if h['kind'] != 'mustpanic' and it.extra_obligations:
+            main = [d for d, t in vc.disj if t in ('prop', 'EXACT')] + it.extra_obligations
+            r['extra_obligations'] = len(it.extra_obligations)
         if not main:
             r['verdict'] = 'unsat'
             r['detail'] = 'all property VCs discharged by CBMC simplification' if h['kind'] != 'mustpanic' else \
@@ -216,7 +220,7 @@ def _decide(h, meta, cfg, r):
             q = lines + block + [f'(assert (or {" ".join(main)} false))', '(check-sat)']
             if getq:
                 q.append(f'(get-value ({" ".join(getq)}))')
-            v, o, s = engine.run_solver(q, cfg['solver_cap'], cfg['seed'])
+            v, o, s = engine.run_solver(q, cap, cfg['seed'])
             r['queries'] += 1
             r['solver_s'] += s
             if v == 'unsat':
@@ -230,6 +234,22 @@ def _decide(h, meta, cfg, r):
                 final = ('undecided', f'{mode}: solver answered {v} ' + (o[:200] if v == 'error' else ''))
                 break
             attempts += 1
+            if h['kind'] != 'mustpanic' and mode != 'U':
+                # prefer a counterexample that violates the obligations by more than the native tolerance
+                ex = [d for d, t in vc.disj if t == 'EXACT']
+                tl = [d for d, t in vc.disj if t == 'TOL']
+                tolmain = [d for d, t in vc.disj if t == 'prop'] + list(it.extra_obligations)
+                if len(ex) == 1 and len(tl) == 1 and ex[0] in vc.parts and tl[0] in vc.parts:
+                    tolmain.append(f'(and {vc.parts[ex[0]][0]} (not {vc.parts[tl[0]][1]}))')
+                    q2 = lines + block + [f'(assert (or {" ".join(tolmain)} false))', '(check-sat)']
+                    if getq:
+                        q2.append(f'(get-value ({" ".join(getq)}))')
+                    v2, o2, s2 = engine.run_solver(q2, min(cap, 60), cfg['seed'])
+                    r['queries'] += 1
+                    r['solver_s'] += s2
+                    if v2 == 'sat':
+                        o = o2
+                        r['tol_model'] = True
             model = engine.parse_model(o, mode)
             ipath = os.path.join(work, f'cex_{mode}_{attempts}.inputs')
             write_inputs(ipath, model)
@@ -242,7 +262,7 @@ def _decide(h, meta, cfg, r):
                 r['decided_in'] = mode
                 r['detail'] = '; '.join(f'{p}: {res}' for p, res in bad)
                 # persistent replay file
-                rdir = os.path.join(VERIF, 'replays')
+                rdir = os.path.join(BUILD, 'replays') if engine.REPO != '/repo' else os.path.join(VERIF, 'replays')
                 os.makedirs(rdir, exist_ok=True)
                 rp = os.path.join(rdir, f'{name}.inputs')
                 shutil.copy(ipath, rp)
@@ -291,7 +311,7 @@ def _replay_pinned(h, work, r):
             r['verdict'] = 'violation'
             r['decided_in'] = 'symex (harness end unreachable) + native replay'
             r['detail'] = 'harness end unreachable for every input; ' + '; '.join(f'{p}: {res}' for p, res in bad)
-            rdir = os.path.join(VERIF, 'replays')
+            rdir = os.path.join(BUILD, 'replays') if engine.REPO != '/repo' else os.path.join(VERIF, 'replays')
             os.makedirs(rdir, exist_ok=True)
             rp = os.path.join(rdir, f"{h['name']}.inputs")
             shutil.copy(ipath, rp)
@@ -395,7 +415,7 @@ def main(argv=None):
     for l in lines:
         print(l)
     wall = time.time() - t0
-    if not a.no_evidence and not a.only:
+    if not a.no_evidence and not a.only and engine.REPO == '/repo':
         write_evidence(prop, tier, seed, results, hs, cfg, wall, nviol, dict(codegen_s=codegen_s, native_build_s=native_s))
     n_unsat = sum(1 for r in results if r['verdict'] == 'unsat')
     print(f"{prop} {tier}: {len(results)} obligations: {n_unsat} unsat, "
